@@ -13,6 +13,5 @@ CONSTANTS
   ChunkCounts <- TraceChunkCounts
 INIT TInit
 NEXT TNext
-INVARIANT TraceCore
 POSTCONDITION Accepted
 CHECK_DEADLOCK FALSE
